@@ -281,6 +281,14 @@ def no_hidden_state(ctx, R, rule_id, modules, classes=None, allow=()):
                             q = "%s.%s" % (f.module.name, tt.value.id)
                             if q in P.funcs and f.module.name in modules:
                                 R.bad(rule_id, "%s|funcattr %s" % (f.qual, tt.value.id), wh(n), "stores state on function object %s" % q)
+            if isinstance(n, ast.AugAssign) and isinstance(n.target, ast.Name) and isinstance(n.op, (ast.BitOr, ast.Add, ast.BitAnd, ast.Sub, ast.BitXor, ast.Mult)):
+                # `alias |= other`, `alias += other` update a dict / list / set in place: the object the name is bound to changes
+                for g in sorted(gl(n.target.id)):
+                    if g in allow:
+                        continue
+                    val = watch.get(g)
+                    if isinstance(val, (ast.Dict, ast.List, ast.Set, ast.DictComp, ast.ListComp, ast.SetComp, ast.Call)):
+                        R.bad(rule_id, "%s|augassign %s.%s" % (f.qual, g[0], g[1]), wh(n), "`%s` updates module-level object %s.%s in place%s: state shared by every caller" % (ntext(n)[:90], g[0], g[1], "" if n.target.id == g[1] else " (through local alias `%s`)" % n.target.id))
             if isinstance(n, ast.Call):
                 if isinstance(n.func, ast.Attribute) and n.func.attr in MUTATORS:
                     r = _root(n.func.value)
